@@ -66,7 +66,16 @@ pub fn inject_error(files: &Files, rng: &mut Rng) -> (&'static str, Files) {
     let paths: Vec<String> = f.keys().cloned().collect();
     let any = rng.pick(&paths).clone();
     let nl = if f[&any].contains("\r\n") { "\r\n" } else { "\n" };
-    let kind = rng.below(11);
+    // the phase first (each equally likely), then one way of failing in it
+    let kind = match rng.below(7) {
+        0 => *rng.pick(&[0usize, 1, 9, 10]),
+        1 => *rng.pick(&[2usize, 3]),
+        2 => 4,
+        3 => 5,
+        4 => 6,
+        5 => 7,
+        _ => 8,
+    };
     let phase = match kind {
         0 => {
             // lexical: a character no token starts with
